@@ -17,6 +17,12 @@ type Day struct {
 	l          *calendar.Lunar
 }
 
+// tzOf rotates the location of the time.Time values handed to the ...FromDate constructors: the library takes the
+// wall-clock fields of the value as given, in whatever location it carries (UTC, UTC+8, UTC-11, UTC+5:45).
+var tzList = []*time.Location{time.UTC, time.FixedZone("CST", 8*3600), time.FixedZone("W11", -11*3600), time.FixedZone("NPT", 5*3600+45*60)}
+
+func tzOf(k int) *time.Location { return tzList[((k%4)+4)%4] }
+
 // RouteSolar is a civil date object for a sweep day obtained through one of the public routes.
 type RouteSolar struct {
 	Name string
@@ -54,7 +60,7 @@ func (d *Day) SolarRoutes(prev *Day, viaLunar bool) []RouteSolar {
 		add("GetLunar().GetSolar()", func() *calendar.Solar { return d.L().GetSolar() })
 	}
 	add("NewSolarFromDate", func() *calendar.Solar {
-		t := time.Date(d.Y, time.Month(d.M), d.D, 12, 0, 0, 999999999, time.UTC)
+		t := time.Date(d.Y, time.Month(d.M), d.D, 12, 0, 0, 999999999, tzOf(d.J))
 		if t.Year() != d.Y || int(t.Month()) != d.M || t.Day() != d.D {
 			return nil
 		}
@@ -163,7 +169,7 @@ func lunarP(s *calendar.Solar, j int) *calendar.Lunar {
 			l = l2
 		}
 	case 2:
-		t := time.Date(s.GetYear(), time.Month(s.GetMonth()), s.GetDay(), s.GetHour(), s.GetMinute(), s.GetSecond(), 500000000, time.UTC)
+		t := time.Date(s.GetYear(), time.Month(s.GetMonth()), s.GetDay(), s.GetHour(), s.GetMinute(), s.GetSecond(), 500000000, tzOf(j/3))
 		if t.Year() == s.GetYear() && int(t.Month()) == s.GetMonth() && t.Day() == s.GetDay() {
 			var l2 *calendar.Lunar
 			if _, p := try(func() { l2 = calendar.NewLunarFromDate(t) }); !p && l2 != nil && l2.GetSolar().ToYmdHms() == s.ToYmdHms() {
